@@ -11,7 +11,7 @@ import (
 // C20 — origin names are recovered exactly; their length leaks only in 32-byte buckets.
 type c20 struct{ base }
 
-func init() { core.Register(c20{base{"C20", "exploration", 160, 4200}}) }
+func init() { core.Register(c20{base{"C20", "exploration", 1000, 20000}}) }
 
 func (c20) Describe() core.Description {
 	return core.Description{
